@@ -378,4 +378,377 @@ theorem crandMont_finish (w : Nat) (addf subf : Nat → Nat → Nat → Nat → 
   exact Mul.mont_finish w _ (m0 :: ms) res _ t (val w a) t3 hmod t4 t2 t1 t5 hlt hres
 
 
+
+/-! ## Barrett reduction: the quotient estimate (pure arithmetic)
+
+`Q1 = B^{n-1}`, `P1 = B^{n+1}`, `R = B^{2n} = Q1 P1`, `μ = R / M`, `A1 = A / Q1`,
+`q̂ = A1 μ / P1`: then `q̂ M ≤ A < (q̂ + 3) M`. -/
+
+theorem barrett_estimate {A M Q1 P1 : Nat} (hQ : 0 < Q1) (hQM : Q1 ≤ M) (hA : A < Q1 * P1) :
+    (A / Q1 * (Q1 * P1 / M) / P1) * M ≤ A
+    ∧ A < ((A / Q1 * (Q1 * P1 / M) / P1) + 3) * M := by
+  have hM : 0 < M := by omega
+  have hP : 0 < P1 := by
+    rcases Nat.eq_zero_or_pos P1 with h | h
+    · rw [h] at hA; simp at hA
+    · exact h
+  -- the three divisions
+  have d1 := Nat.div_add_mod (Q1 * P1) M
+  have d1r := Nat.mod_lt (Q1 * P1) hM
+  have d2 := Nat.div_add_mod A Q1
+  have d2r := Nat.mod_lt A hQ
+  generalize hmu : Q1 * P1 / M = mu at *
+  generalize hA1 : A / Q1 = A1 at *
+  have d3 := Nat.div_add_mod (A1 * mu) P1
+  have d3r := Nat.mod_lt (A1 * mu) hP
+  generalize hq : A1 * mu / P1 = qh at *
+  generalize Q1 * P1 % M = r1 at *
+  generalize A % Q1 = r2 at *
+  generalize A1 * mu % P1 = r3 at *
+  -- A1 < P1, mu ≤ P1
+  have hA1lt : A1 < P1 := by
+    have : Q1 * A1 < Q1 * P1 := by omega
+    exact Nat.lt_of_mul_lt_mul_left this
+  have hmule : mu ≤ P1 := by
+    have h1 : M * mu ≤ M * P1 := by
+      have : Q1 * P1 ≤ M * P1 := Nat.mul_le_mul_right _ hQM
+      omega
+    exact Nat.le_of_mul_le_mul_left h1 hM
+  constructor
+  · -- upper estimate
+    have h1 : P1 * (qh * M) ≤ P1 * A := by
+      calc P1 * (qh * M) = (P1 * qh) * M := by ring
+        _ ≤ (A1 * mu) * M := Nat.mul_le_mul_right _ (by omega)
+        _ = A1 * (M * mu) := by ring
+        _ ≤ A1 * (Q1 * P1) := Nat.mul_le_mul_left _ (by omega)
+        _ = (Q1 * A1) * P1 := by ring
+        _ ≤ A * P1 := Nat.mul_le_mul_right _ (by omega)
+        _ = P1 * A := by ring
+    exact Nat.le_of_mul_le_mul_left h1 hP
+  · -- lower estimate
+    have h1 : P1 * A < P1 * ((qh + 3) * M) := by
+      have e1 : A + 1 ≤ Q1 * (A1 + 1) := by rw [Nat.mul_add]; omega
+      have e2 : Q1 * P1 + 1 ≤ M * (mu + 1) := by rw [Nat.mul_add]; omega
+      have e3 : (mu + 1) * (A1 + 1) ≤ (qh + 3) * P1 := by
+        have : (mu + 1) * (A1 + 1) = A1 * mu + A1 + mu + 1 := by ring
+        have : (qh + 3) * P1 = P1 * qh + 3 * P1 := by ring
+        omega
+      calc P1 * A < P1 * (A + 1) := by
+            apply Nat.mul_lt_mul_of_pos_left _ hP; omega
+        _ ≤ P1 * (Q1 * (A1 + 1)) := Nat.mul_le_mul_left _ e1
+        _ = (Q1 * P1) * (A1 + 1) := by ring
+        _ ≤ (M * (mu + 1)) * (A1 + 1) := Nat.mul_le_mul_right _ (by omega)
+        _ = M * ((mu + 1) * (A1 + 1)) := by ring
+        _ ≤ M * ((qh + 3) * P1) := Nat.mul_le_mul_left _ e3
+        _ = P1 * ((qh + 3) * M) := by ring
+    exact Nat.lt_of_mul_lt_mul_left h1
+
+/-! ## lists: take / drop / toWords as mod / div -/
+
+theorem val_take_mod (w : Nat) (l : List Nat) (k : Nat) (hl : Wf w l) (hk : k ≤ l.length) :
+    val w (l.take k) = val w l % 2 ^ (w * k) ∧ val w (l.drop k) = val w l / 2 ^ (w * k) := by
+  have h := val_take_drop w l k hk
+  have hlt := val_lt (Wf_take hl k)
+  rw [List.length_take, Nat.min_eq_left hk] at hlt
+  have := divmod_of_eq hlt h.symm
+  exact ⟨this.1.symm, this.2.symm⟩
+
+theorem val_toWords (w n v : Nat) : val w (toWords w n v) = v % 2 ^ (w * n) := by
+  induction n generalizing v with
+  | zero => simp [toWords, val, Nat.mod_one]
+  | succ n ih =>
+    rw [toWords, val_cons, ih, Mul.powS, Nat.mod_mul]
+
+theorem wsub_le {w x y : Nat} (hx : x < 2 ^ w) (hy : y ≤ x) : wsub w x y = x - y := by
+  show (x + (2 ^ w - y % 2 ^ w)) % 2 ^ w = x - y
+  rw [Nat.mod_eq_of_lt (show y < 2 ^ w by omega)]
+  have : x + (2 ^ w - y) = (x - y) + 2 ^ w := by omega
+  rw [this, Nat.add_mod_right, Nat.mod_eq_of_lt (by omega)]
+
+
+/-! ## zzRedBarr: the common part -/
+
+theorem barrStart_spec (w : Nat) (mod : List Nat) (n' : Nat) (hmod : Wf w mod)
+    (hn : mod.length = n' + 1) (hlo : 2 ^ (w * n') ≤ val w mod) :
+    val w (zzRedBarrStart w mod) = 2 ^ (w * (2 * mod.length)) / val w mod
+    ∧ Wf w (zzRedBarrStart w mod) ∧ (zzRedBarrStart w mod).length = mod.length + 2 := by
+  unfold zzRedBarrStart
+  refine ⟨?_, toWords_Wf _ _ _, toWords_length _ _ _⟩
+  rw [val_toWords, hn]
+  apply Nat.mod_eq_of_lt
+  have hQ : 0 < 2 ^ (w * n') := Nat.two_pow_pos _
+  have e : 2 ^ (w * (2 * (n' + 1))) = 2 ^ (w * n') * 2 ^ (w * (n' + 2)) := by
+    rw [← Nat.pow_add]; congr 1; ring
+  have h1 : 2 ^ (w * (2 * (n' + 1))) / val w mod ≤ 2 ^ (w * (2 * (n' + 1))) / 2 ^ (w * n') :=
+    Nat.div_le_div_left hlo hQ
+  rw [e, Nat.mul_div_cancel_left _ hQ] at h1
+  rw [e]
+  have h2 : 2 ^ (w * (n' + 2)) < 2 ^ (w * (n' + 1 + 2)) := by
+    rcases Nat.eq_zero_or_pos w with h | h
+    · subst h
+      -- w = 0: all words are 0, so val mod = 0 < 1 = 2^0 contradicts hlo
+      exfalso
+      have := val_lt hmod
+      simp at this hlo
+      omega
+    · exact Nat.pow_lt_pow_right (by omega) (by nlinarith)
+  omega
+
+theorem barrCommon_spec (w : Nat) (hw : 2 ≤ w) (a mod : List Nat) (n' : Nat)
+    (hmod : Wf w mod) (hn : mod.length = n' + 1) (ha : Wf w a) (hl : a.length = 2 * (n' + 1))
+    (hlo : 2 ^ (w * n') ≤ val w mod) :
+    Wf w (zzRedBarrCommon w a mod (zzRedBarrStart w mod))
+    ∧ (zzRedBarrCommon w a mod (zzRedBarrStart w mod)).length = n' + 2
+    ∧ val w (zzRedBarrCommon w a mod (zzRedBarrStart w mod)) < 3 * val w mod
+    ∧ ∃ qh, val w (zzRedBarrCommon w a mod (zzRedBarrStart w mod)) + qh * val w mod = val w a := by
+  obtain ⟨p1, p2, p3⟩ := barrStart_spec w mod n' hmod hn hlo
+  have hM := val_lt hmod
+  rw [hn] at hM p1 p3
+  have hA := val_lt ha
+  rw [hl] at hA
+  have hQ : 0 < 2 ^ (w * n') := Nat.two_pow_pos _
+  have eR : 2 ^ (w * (2 * (n' + 1))) = 2 ^ (w * n') * 2 ^ (w * (n' + 2)) := by
+    rw [← Nat.pow_add]; congr 1; ring
+  have eP : 2 ^ (w * (n' + 2)) = 2 ^ w * 2 ^ (w * (n' + 1)) := by
+    rw [← Nat.pow_add]; congr 1; ring
+  have hB4 : 4 ≤ 2 ^ w := by
+    calc 4 = 2 ^ 2 := rfl
+      _ ≤ 2 ^ w := Nat.pow_le_pow_right (by omega) hw
+  rw [eR] at hA p1
+  obtain ⟨est1, est2⟩ := barrett_estimate (A := val w a) (M := val w mod) hQ hlo hA
+  unfold zzRedBarrCommon
+  simp only [hn, Nat.add_sub_cancel]
+  generalize zzRedBarrStart w mod = param at *
+  -- q = a[n-1..] * param
+  obtain ⟨x1, x2⟩ := val_take_mod w a n' ha (by omega)
+  have xW := Wf_drop ha n'
+  have xL : (a.drop n').length = n' + 2 := by rw [List.length_drop, hl]; omega
+  obtain ⟨q1, q2, q3⟩ := Mul.zzMul_spec w (a.drop n') param xW p2
+  rw [x2, p1] at q1
+  rw [xL, p3] at q3
+  generalize zzMul w (a.drop n') param = q at *
+  -- q̂ = q div B^{n+1}
+  obtain ⟨_, y2⟩ := val_take_mod w q (n' + 2) q2 (by omega)
+  have yW := Wf_drop q2 (n' + 2)
+  have yL : (q.drop (n' + 2)).length = n' + 3 := by rw [List.length_drop, q3]; omega
+  rw [q1] at y2
+  obtain ⟨m1, m2, m3⟩ := Mul.zzMul_spec w (q.drop (n' + 2)) mod yW hmod
+  rw [y2] at m1
+  rw [yL, hn] at m3
+  generalize zzMul w (q.drop (n' + 2)) mod = qm at *
+  -- the truncated subtraction
+  obtain ⟨t1, _⟩ := val_take_mod w qm (n' + 2) m2 (by omega)
+  have tW := Wf_take m2 (n' + 2)
+  have tL : (qm.take (n' + 2)).length = n' + 2 := by rw [List.length_take, m3]; omega
+  obtain ⟨u1, _⟩ := val_take_mod w a (n' + 2) ha (by omega)
+  have uW := Wf_take ha (n' + 2)
+  have uL : (a.take (n' + 2)).length = n' + 2 := by rw [List.length_take, hl]; omega
+  obtain ⟨s1, s2, s3, s4⟩ := zzSub2_lem w (a.take (n' + 2)) (qm.take (n' + 2)) uW tW (by rw [uL, tL])
+  rw [uL] at s1 s4
+  rw [t1, m1, u1] at s1
+  have hs := val_lt s3
+  rw [s4] at hs
+  generalize zzSub2 w (a.take (n' + 2)) (qm.take (n' + 2)) = s at *
+  generalize hqh : val w a / 2 ^ (w * n') * (2 ^ (w * n') * 2 ^ (w * (n' + 2)) / val w mod)
+    / 2 ^ (w * (n' + 2)) = qh at *
+  -- r = A - q̂ M < 3 M ≤ B^{n+1}
+  have h3M : 3 * val w mod ≤ 2 ^ (w * (n' + 2)) := by
+    rw [eP]
+    have : 4 * 2 ^ (w * (n' + 1)) ≤ 2 ^ w * 2 ^ (w * (n' + 1)) := Nat.mul_le_mul_right _ hB4
+    omega
+  have dA := Nat.div_add_mod (val w a) (2 ^ (w * (n' + 2)))
+  have dY := Nat.div_add_mod (qh * val w mod) (2 ^ (w * (n' + 2)))
+  generalize val w a / 2 ^ (w * (n' + 2)) = ka at *
+  generalize val w a % 2 ^ (w * (n' + 2)) = ra at *
+  generalize qh * val w mod / 2 ^ (w * (n' + 2)) = ky at *
+  generalize qh * val w mod % 2 ^ (w * (n' + 2)) = ry at *
+  obtain ⟨r, hr⟩ : ∃ r, val w a = qh * val w mod + r :=
+    ⟨val w a - qh * val w mod, by omega⟩
+  have hr3 : r < 3 * val w mod := by
+    have : (qh + 3) * val w mod = qh * val w mod + 3 * val w mod := by ring
+    omega
+  generalize 2 ^ (w * (n' + 2)) = P at *
+  have key : val w s.1 = r := by
+    have e2 : P * (ky + s.2) = P * ky + P * s.2 := Nat.mul_add _ _ _
+    exact (cons_inj_aux (B := P) (x := val w s.1) (y := r) (u := ka) (v := ky + s.2) hs
+      (by omega) (by omega)).1
+  refine ⟨s3, s4, ?_, qh, ?_⟩
+  · rw [key]; exact hr3
+  · rw [key]; omega
+
+
+/-! ## zzRedBarr: the corrections -/
+
+theorem drop_last (l : List Nat) (k : Nat) (h : l.length = k + 1) : l.drop k = [l.getD k 0] := by
+  induction k generalizing l with
+  | zero =>
+    match l, h with
+    | [x], _ => rfl
+  | succ k ih =>
+    match l, h with
+    | x :: xs, h => simpa using ih xs (by simpa using h)
+
+/-- an (n+1)-word number as low n words + top word -/
+theorem val_split_top (w : Nat) (c : List Nat) (n : Nat) (hc : Wf w c) (hl : c.length = n + 1) :
+    val w c = val w (c.take n) + 2 ^ (w * n) * c.getD n 0
+    ∧ Wf w (c.take n) ∧ (c.take n).length = n ∧ c.getD n 0 < 2 ^ w := by
+  have h := val_take_drop w c n (by omega)
+  rw [drop_last c n hl] at h
+  refine ⟨by simpa [val] using h, Wf_take hc n, by rw [List.length_take, hl]; omega, getD_lt hc n⟩
+
+theorem wwCmp2_safe_ge (w : Nat) (a b : List Nat) (ha : Wf w a) (hb : Wf w b) :
+    wwCmp2_safe a b ≥ 0 ↔ val w b ≤ val w a := by
+  rw [wwCmp2_safe_eq_fast, wwCmp2_fast_eq w a b ha hb, cmp3_nonneg]
+
+/-- one iteration of the FAST while loop: `a[n] -= zzSub2(a, mod, n)` subtracts mod -/
+theorem barrFastStep (w : Nat) (c mod : List Nat) (n : Nat) (hc : Wf w c) (hmod : Wf w mod)
+    (hn : mod.length = n) (hl : c.length = n + 1) (hge : val w mod ≤ val w c) :
+    Wf w ((zzSub2 w (c.take n) mod).1 ++ [wsub w (c.getD n 0) (zzSub2 w (c.take n) mod).2])
+    ∧ ((zzSub2 w (c.take n) mod).1 ++ [wsub w (c.getD n 0) (zzSub2 w (c.take n) mod).2]).length = n + 1
+    ∧ val w ((zzSub2 w (c.take n) mod).1 ++ [wsub w (c.getD n 0) (zzSub2 w (c.take n) mod).2])
+        + val w mod = val w c := by
+  obtain ⟨v1, v2, v3, v4⟩ := val_split_top w c n hc hl
+  obtain ⟨s1, s2, s3, s4⟩ := zzSub2_lem w (c.take n) mod v2 hmod (by rw [v3, hn])
+  rw [v3] at s1 s4
+  have hs := val_lt s3
+  rw [s4] at hs
+  have hM := val_lt hmod
+  rw [hn] at hM
+  generalize zzSub2 w (c.take n) mod = r at *
+  generalize c.getD n 0 = top at *
+  have e2 := mul01 (2 ^ (w * n)) s2
+  have hle : r.2 ≤ top := by
+    rcases Nat.eq_zero_or_pos top with h | h
+    · subst h
+      simp only [Nat.mul_zero, Nat.add_zero] at v1
+      split_ifs at e2 <;> omega
+    · omega
+  rw [wsub_le v4 hle]
+  obtain ⟨d, rfl⟩ : ∃ d, top = r.2 + d := ⟨top - r.2, by omega⟩
+  rw [Nat.add_sub_cancel_left]
+  refine ⟨Wf_append.mpr ⟨s3, ?_⟩, by simp [s4], ?_⟩
+  · intro x hx
+    simp at hx; subst hx; omega
+  · rw [val_append, s4]
+    simp only [val, Nat.mul_zero, Nat.add_zero]
+    rw [Nat.mul_add] at v1
+    omega
+
+theorem barrFastLoop_spec (w : Nat) (mod : List Nat) (n : Nat) (hmod : Wf w mod)
+    (hn : mod.length = n) (hM0 : 0 < val w mod) :
+    ∀ f c, Wf w c → c.length = n + 1 → val w c / val w mod < f →
+      Wf w (zzRedBarrFastLoop w mod f c) ∧ (zzRedBarrFastLoop w mod f c).length = n + 1
+      ∧ val w (zzRedBarrFastLoop w mod f c) = val w c % val w mod := by
+  intro f
+  induction f with
+  | zero => intro c _ _ h; exact (Nat.not_lt_zero _ h).elim
+  | succ f ih =>
+    intro c hc hl hf
+    unfold zzRedBarrFastLoop
+    by_cases hge : wwCmp2_safe c mod ≥ 0
+    · rw [if_pos hge]
+      have hge' := (wwCmp2_safe_ge w c mod hc hmod).mp hge
+      simp only [hn]
+      obtain ⟨b1, b2, b3⟩ := barrFastStep w c mod n hc hmod hn hl hge'
+      have hd := Nat.div_eq_sub_div hM0 hge'
+      have hv : val w ((zzSub2 w (c.take n) mod).1
+          ++ [wsub w (c.getD n 0) (zzSub2 w (c.take n) mod).2]) = val w c - val w mod := by omega
+      have hf2 : (val w c - val w mod) / val w mod < f := by
+        generalize (val w c - val w mod) / val w mod = k2 at *
+        generalize val w c / val w mod = k1 at *
+        omega
+      obtain ⟨i1, i2, i3⟩ := ih _ b1 b2 (by rw [hv]; exact hf2)
+      exact ⟨i1, i2, by rw [i3, hv, ← Nat.mod_eq_sub_mod hge']⟩
+    · rw [if_neg hge]
+      have hlt : val w c < val w mod := by
+        rw [wwCmp2_safe_ge w c mod hc hmod] at hge; omega
+      exact ⟨hc, hl, (Nat.mod_eq_of_lt hlt).symm⟩
+
+
+/-- one round of SAFE(zzRedBarr) (repaired mask): compare, `w |= wordNeq01(a[n], 0)`,
+    masked subtraction; the (n+1)-word value decreases by mod iff it is ≥ mod -/
+theorem barrRound (w : Nat) (hw : 0 < w) (lo mod : List Nat) (top : Nat)
+    (hlo : Wf w lo) (hmod : Wf w mod) (hl : lo.length = mod.length) (htop : top < 2 ^ w) :
+    (zzSubAndW w lo mod (wneg w ((zzRedMontCmp lo mod 1).2 ||| wneq01 top 0))).2 ≤ top
+    ∧ Wf w (zzSubAndW w lo mod (wneg w ((zzRedMontCmp lo mod 1).2 ||| wneq01 top 0))).1
+    ∧ (zzSubAndW w lo mod (wneg w ((zzRedMontCmp lo mod 1).2 ||| wneq01 top 0))).1.length
+        = mod.length
+    ∧ val w (zzSubAndW w lo mod (wneg w ((zzRedMontCmp lo mod 1).2 ||| wneq01 top 0))).1
+        + 2 ^ (w * mod.length)
+          * (top - (zzSubAndW w lo mod (wneg w ((zzRedMontCmp lo mod 1).2 ||| wneq01 top 0))).2)
+        + (if val w mod ≤ val w lo + 2 ^ (w * mod.length) * top then val w mod else 0)
+      = val w lo + 2 ^ (w * mod.length) * top := by
+  obtain ⟨_, c2⟩ := Mul.zzRedMontCmp_spec w lo mod 1 hlo hmod hl (by omega)
+  have hM := val_lt hmod
+  have hL := val_lt hlo
+  rw [hl] at hL
+  have h2 := two_le_two_pow hw
+  have hq : wneq01 top 0 = if top = 0 then 0 else 1 := rfl
+  have hc1 : (zzRedMontCmp lo mod 1).2 ≤ 1 := by rw [c2]; split_ifs <;> omega
+  have hq1 : wneq01 top 0 ≤ 1 := by rw [hq]; split_ifs <;> omega
+  have hf := lor01 hc1 hq1
+  have hf1 : (zzRedMontCmp lo mod 1).2 ||| wneq01 top 0 ≤ 1 := by rw [hf]; split_ifs <;> omega
+  have hmask := wneg01 hw hf1
+  have hm01 : wneg w ((zzRedMontCmp lo mod 1).2 ||| wneq01 top 0) = 0
+      ∨ wneg w ((zzRedMontCmp lo mod 1).2 ||| wneq01 top 0) = 2 ^ w - 1 := by
+    rw [hmask]; split_ifs <;> simp
+  obtain ⟨s1, s2, s3, s4⟩ := zzSubAndW_lem w lo mod _ hm01 hlo hmod hl
+  rw [hl] at s1 s4
+  have hS := val_lt s3
+  rw [s4] at hS
+  generalize zzSubAndW w lo mod (wneg w ((zzRedMontCmp lo mod 1).2 ||| wneq01 top 0)) = s at *
+  have e2 := mul01 (2 ^ (w * mod.length)) s2
+  -- f = 0 iff lo < mod and top = 0
+  have hf0 : ((zzRedMontCmp lo mod 1).2 ||| wneq01 top 0 = 0) ↔ (val w lo < val w mod ∧ top = 0) := by
+    have hcz : ((zzRedMontCmp lo mod 1).2 = 0 ↔ val w lo < val w mod) := by
+      rw [c2]
+      by_cases h1 : val w mod < val w lo
+      · simp only [if_pos h1]
+        constructor <;> intro h <;> omega
+      · by_cases h2 : val w mod = val w lo
+        · simp only [if_neg h1, if_pos h2]
+          constructor <;> intro h <;> omega
+        · simp only [if_neg h1, if_neg h2] <;> constructor <;> intro h <;> first | omega | trivial
+    have hqz : (wneq01 top 0 = 0 ↔ top = 0) := by
+      rw [hq]
+      by_cases h1 : top = 0
+      · simp only [if_pos h1] <;> constructor <;> intro h <;> first | omega | trivial
+      · simp only [if_neg h1]
+        constructor <;> intro h <;> omega
+    rw [Nat.or_eq_zero_iff, hcz, hqz]
+  have hmz : wneg w ((zzRedMontCmp lo mod 1).2 ||| wneq01 top 0) = 0
+      ↔ (val w lo < val w mod ∧ top = 0) := by
+    rw [← hf0, hmask]; split_ifs <;> omega
+  generalize wneg w ((zzRedMontCmp lo mod 1).2 ||| wneq01 top 0) = mask at *
+  generalize 2 ^ (w * mod.length) = P at *
+  by_cases hz : val w lo < val w mod ∧ top = 0
+  · obtain ⟨hz1, rfl⟩ := hz
+    rw [if_pos (hmz.mpr ⟨hz1, rfl⟩)] at s1
+    have hs0 : s.2 = 0 := by split_ifs at e2 <;> omega
+    refine ⟨by omega, s3, s4, ?_⟩
+    rw [hs0, Nat.mul_zero] at s1
+    rw [hs0, Nat.mul_zero, if_neg (by omega)]
+    omega
+  · rw [if_neg (fun h => hz (hmz.mp h))] at s1
+    have hge : val w mod ≤ val w lo + P * top := by
+      by_cases h1 : val w lo < val w mod
+      · have : 1 ≤ top := by
+          rcases Nat.eq_zero_or_pos top with h | h
+          · exact absurd ⟨h1, h⟩ hz
+          · exact h
+        have : P * 1 ≤ P * top := Nat.mul_le_mul_left _ this
+        omega
+      · omega
+    have hle : s.2 ≤ top := by
+      rcases Nat.eq_zero_or_pos top with h | h
+      · subst h
+        simp only [Nat.mul_zero, Nat.add_zero] at hge
+        split_ifs at e2 <;> omega
+      · omega
+    refine ⟨hle, s3, s4, ?_⟩
+    rw [if_pos hge]
+    obtain ⟨d, rfl⟩ : ∃ d, top = s.2 + d := ⟨top - s.2, by omega⟩
+    rw [Nat.add_sub_cancel_left, Nat.mul_add]
+    omega
+
 end Bee2V.C05.Red
